@@ -1,8 +1,10 @@
 """Generators for syntax-rules rule sets and uses (C04)."""
 import itertools, random
 
-PAT_ATOMS = ["a", "b", "c", "k", "_", "1", "2", "#t", '"s"']
-USE_ATOMS = ["1", "2", "k", "j", "#t", '"s"', "x"]
+# literal data that are numerically or textually CLOSE but not equal (1 / 1.0 / "1", 1/2 / 0.5, #t / t, "s" / s):
+# a literal datum matches only an equal datum
+PAT_ATOMS = ["a", "b", "c", "k", "_", "1", "2", "#t", '"s"', "1.0", "1/2", "0.5"]
+USE_ATOMS = ["1", "2", "k", "j", "#t", '"s"', "x", "1.0", "1/2", "0.5", '"1"', "s", "t", "2.0", "#f"]
 
 
 def gen_pat(rng, depth, top=False):
